@@ -1,6 +1,7 @@
 (** C05 — Vary: a stored variant is only served to requests that select it. Statements only. *)
 From Coq Require Import Sorting.Sorted Lia ZifyBool ZifyNat ZifyN.
 From KV Require Import Bytes RustInt Range CacheControl Cache CacheProofs Fixture CacheX CacheXProofs RustStd Vary VaryProofs VaryWire VaryWireProofs.
+From KV Require Import RuleSet CacheRulesProofs VaryRules VaryRulesProofs.
 Open Scope N_scope.
 
 Section C05.
@@ -624,3 +625,74 @@ Example ex_overlapping_name :
           (own_tuple (fun _ => [mkRule (B "accept") (xform 0) (B "d"); mkRule (B "range") (xform 0) (B "d")]) (ex_req [])) true true))
   = Some (B "accept-encoding, range, accept, range").
 Proof. vm_compute. reflexivity. Qed.
+
+(** ---- which rules a page gets ([Vary::rules_from_path] = [extensions::RuleSet::get] on the rule set [add_mut] keeps) ----
+    [rules_fix] — the [rules_of] with which the theorems above are instantiated for the model the code is compared with
+    (vary.run / vary.spec / vary.wire) — gives a path the rules of the MOST SPECIFIC rule set added for a pattern that covers
+    it (C14's independent resolver [resolve]: exact before wildcard, then the longer pattern; the rules added last for it),
+    for every rule set and every order of addition. *)
+Theorem vary_rules_of_most_specific : forall (vr : list (bytes * list vrule)) (p : bytes),
+  rules_fix vr p = map conv_rule (rules_or_none (resolve vr p)).
+Proof. exact rules_fix_resolve. Qed.
+
+(** an exact rule for the path wins against every wildcard that covers the path too — "<path>*", which is LONGER than
+    the path, and "<path minus its last byte>*", which is as long, included — whatever the order of addition ... *)
+Theorem vary_exact_rule_wins_c05 : forall (vr : list (bytes * list vrule)) (p : bytes) (rs : list vrule),
+  is_wild p = false -> last_added vr p = Some rs -> rules_fix vr p = map conv_rule rs.
+Proof. exact rules_fix_exact_wins. Qed.
+
+(** ... without one the longest wildcard that covers it; and a path no rule covers has no rules *)
+Theorem vary_longest_pattern_wins_c05 : forall (vr : list (bytes * list vrule)) (p q : bytes) (rs : list vrule),
+  (forall x, In x (map fst vr) -> covers x p = true -> is_wild x = true /\ (length x <= length q)%nat) ->
+  is_wild q = true -> covers q p = true -> last_added vr q = Some rs -> rules_fix vr p = map conv_rule rs.
+Proof. exact rules_fix_longest_pattern_wins. Qed.
+
+Theorem vary_uncovered_path_has_no_rules : forall (vr : list (bytes * list vrule)) (p : bytes),
+  (forall x, In x (map fst vr) -> covers x p = false) -> rules_fix vr p = [].
+Proof. exact rules_fix_uncovered. Qed.
+
+(** the seeded change C05-9 (rules ordered by the length of the pattern text alone, stable): "/docs*" and — added first —
+    "/doc*" shadow the exact rule "/docs"; the page's accept-language variants sv / en then share one key *)
+Theorem length_only_shadows_exact_refuted :
+  map ru_name (rules_fix w9_star (B "/docs")) = [B "accept-language"] /\
+  map ru_name (rules_fix (rev w9_star) (B "/docs")) = [B "accept-language"] /\
+  map ru_name (rules_fix w9_tie (B "/docs")) = [B "accept-language"] /\
+  map ru_name (rules_fix_len_only w9_star (B "/docs")) = [B "x-b"] /\
+  map ru_name (rules_fix_len_only (rev w9_star) (B "/docs")) = [B "x-b"] /\
+  map ru_name (rules_fix_len_only w9_tie (B "/docs")) = [B "x-b"] /\
+  headers_for_request (rules_fix w9_tie (B "/docs")) (w9_req (B "sv")) <> headers_for_request (rules_fix w9_tie (B "/docs")) (w9_req (B "en")) /\
+  headers_for_request (rules_fix_len_only w9_tie (B "/docs")) (w9_req (B "sv")) =
+  headers_for_request (rules_fix_len_only w9_tie (B "/docs")) (w9_req (B "en")) /\
+  headers_for_request (rules_fix_len_only w9_star (B "/docs")) (w9_req (B "sv")) =
+  headers_for_request (rules_fix_len_only w9_star (B "/docs")) (w9_req (B "en")).
+Proof. exact length_only_shadows_exact_refuted_w. Qed.
+
+(** ---- a rule header present with an EMPTY value (seeded change C03-11) ----
+    it is a text value like any other ([default_applied], third clause, at v = ""): its component is the transformation
+    of the empty string; a request carrying it and one without the header select different variants whenever
+    transformation("") is not the rule's default *)
+Theorem empty_value_is_transformed : forall (ref : rule) (r r' : request),
+  header_get (ru_name ref) r = Some [] ->
+  header_for ref r = (ru_name ref, ru_xf ref []) /\
+  (header_get (ru_name ref) r' = None -> ru_xf ref [] <> ru_default ref -> header_for ref r <> header_for ref r').
+Proof.
+  intros ref r r' H. split; [exact (empty_value_transformed ref r H)|]. intros H' D. exact (empty_and_absent_differ ref r r' H H' D).
+Qed.
+
+(** with empty values skipped (the seeded change), `accept-language:` (empty) and no header get one key although the
+    transformed header the handler answers by differs ("none" / default "lo") *)
+Theorem empty_as_default_refuted :
+  header_for w10_rule w10_empty = (B "accept-language", B "none") /\
+  header_for w10_rule w10_absent = (B "accept-language", B "lo") /\
+  header_for_skip_empty w10_rule w10_empty = header_for_skip_empty w10_rule w10_absent.
+Proof. exact empty_as_default_refuted_w. Qed.
+
+Example ex_specificity :
+  map ru_name (rules_fix [(B "/doc*", [(B "x-b", 0, B "k")]); (B "/docs*", [(B "x-c", 1, B "lo")]); (B "/docs", [(B "accept-language", 0, B "sv")])] (B "/docs")) = [B "accept-language"] /\
+  map ru_name (rules_fix [(B "/doc*", [(B "x-b", 0, B "k")]); (B "/docs*", [(B "x-c", 1, B "lo")]); (B "/docs", [(B "accept-language", 0, B "sv")])] (B "/docs/a")) = [B "x-c"] /\
+  map ru_name (rules_fix [(B "/doc*", [(B "x-b", 0, B "k")]); (B "/docs*", [(B "x-c", 1, B "lo")]); (B "/docs", [(B "accept-language", 0, B "sv")])] (B "/doc")) = [B "x-b"] /\
+  rules_fix [(B "/doc*", [(B "x-b", 0, B "k")])] (B "/other") = [].
+Proof. vm_compute. repeat split; reflexivity. Qed.
+Example ex_empty_value :
+  header_get (ru_name w10_rule) w10_empty = Some [] /\ header_get (ru_name w10_rule) w10_absent = None /\ ru_xf w10_rule [] <> ru_default w10_rule.
+Proof. vm_compute. repeat split; try reflexivity. intros H. discriminate H. Qed.
